@@ -85,3 +85,48 @@ Example write_offset_bytes_witness :
   write_offset_bytes {| ty := SignedOffset; vsize := 4; bits := 26; shift := 0; discard := 2 |}
                      [0xAA; 0x00; 0x00; 0x00; 0x94; 0xBB] 1 (-8) = Some [0xAA; 0xFE; 0xFF; 0xFF; 0x97; 0xBB].
 Proof. vm_compute. reflexivity. Qed.
+
+(* the same frame condition for ANY word-level patch function (in particular the model of HEAD, write_offset_var true true):
+   patching a region through a word function only touches the vsize bytes at value_offset *)
+Definition write_bytes_with (wo : fmt -> Z -> Z -> option Z) (f : fmt) (region : list Z) (value_offset : nat) (off : Z) : option (list Z) :=
+  let n := Z.to_nat (vsize f) in
+  let pre := firstn value_offset region in
+  let mid := firstn n (skipn value_offset region) in
+  let post := skipn (value_offset + n) region in
+  if negb (Nat.eqb (length mid) n) then None else
+  match wo f (le_join mid) off with
+  | Some w => Some (pre ++ le_split n w ++ post)
+  | None => None
+  end.
+
+Lemma write_bytes_with_pinned f region vo off : write_bytes_with write_offset f region vo off = write_offset_bytes f region vo off.
+Proof. reflexivity. Qed.
+
+Theorem write_bytes_with_exact wo f region vo off region' :
+  (0 < Z.to_nat (vsize f))%nat ->
+  write_bytes_with wo f region vo off = Some region' ->
+  let n := Z.to_nat (vsize f) in
+  length region' = length region /\
+  (forall i d, (i < vo \/ vo + n <= i)%nat -> nth i region' d = nth i region d) /\
+  exists w, wo f (le_join (firstn n (skipn vo region))) off = Some w /\ firstn n (skipn vo region') = le_split n w.
+Proof.
+  intros Hn H n. unfold write_bytes_with in H. fold n in H.
+  set (pre := firstn vo region) in *. set (mid := firstn n (skipn vo region)) in *. set (post := skipn (vo + n) region) in *.
+  destruct (Nat.eqb (length mid) n) eqn:E; cbn [negb] in H; [|discriminate]. apply Nat.eqb_eq in E.
+  destruct (wo f (le_join mid) off) as [w|] eqn:Ew; [|discriminate].
+  injection H as <-.
+  assert (Hsplit : region = pre ++ mid ++ post).
+  { subst pre mid post. rewrite <- (firstn_skipn vo region) at 1. f_equal.
+    rewrite <- (firstn_skipn n (skipn vo region)) at 1. f_equal. apply skipn_skipn'. }
+  assert (Hpre : length pre = vo).
+  { subst pre. apply firstn_length_le. destruct (le_lt_dec vo (length region)) as [|Hgt]; [assumption|exfalso].
+    subst mid. rewrite skipn_all2 in E by lia. rewrite firstn_nil in E. cbn in E. lia. }
+  pose proof (le_split_length n w) as Hsp.
+  split; [rewrite Hsplit at 1; rewrite !app_length, Hsp, E; reflexivity|].
+  split.
+  { intros i d Hi. rewrite Hsplit. destruct Hi as [Hi|Hi].
+    - rewrite !app_nth1 by lia. reflexivity.
+    - rewrite !app_assoc. rewrite !app_nth2 by (rewrite app_length; lia). rewrite !app_length, Hsp, E. reflexivity. }
+  exists w. split; [reflexivity|].
+  rewrite <- Hpre at 1. rewrite skipn_app_exact. rewrite <- Hsp at 1. apply firstn_app_exact.
+Qed.
